@@ -258,7 +258,7 @@ def s_case(max_dcs):
     def make():
         @st.composite
         def case(draw):
-            h = draw(st.integers(1, 6))
+            h = draw(st.sampled_from([1, 2, 3, 3, 4, 4, 5, 6]))
             ndc = draw(st.integers(1, max_dcs))
             keys = draw(st.lists(st.binary(min_size=1, max_size=5), min_size=1, max_size=3, unique=True))
             near = [mref.murmur3_token(k) + d for k in keys for d in (-1, 0, 1)]
@@ -274,9 +274,9 @@ def s_case(max_dcs):
                               "state": draw(state)})
                 at += counts[i]
             dcnames = ["dc%d" % d for d in range(ndc)]
-            rfs = st.sampled_from(["0", "1", "2", "3", "4"])
+            rfs = st.sampled_from(["0", "1", "2", "2", "3", "3", "4"])
             nts = st.dictionaries(st.sampled_from(dcnames), rfs, min_size=1).map(lambda d: dict(d, **{"class": "NetworkTopologyStrategy"}))
-            simple = st.sampled_from(["1", "2", "3", "5"]).map(lambda r: {"class": "SimpleStrategy", "replication_factor": r})
+            simple = st.sampled_from(["1", "2", "2", "3", "3", "5"]).map(lambda r: {"class": "SimpleStrategy", "replication_factor": r})
             if draw(st.integers(0, 19)) == 0:
                 simple = st.just({"class": "SimpleStrategy", "replication_factor": "3/1"})
             kss = draw(st.lists(st.one_of(nts, simple), min_size=1, max_size=3))
@@ -294,7 +294,9 @@ def s_case(max_dcs):
                 st.fixed_dictionaries({"q": st.fixed_dictionaries({"key": st.none(), "ks": ksname}), "wks": st.none()}),
                 st.fixed_dictionaries({"q": st.none(), "wks": st.one_of(st.none(), ksname)}))
             ev = st.fixed_dictionaries({"ev": st.sampled_from(STATES), "host": st.integers(0, h - 1)})
-            steps = draw(st.lists(st.one_of(qstep, qstep, qstep, ev), min_size=1, max_size=6))
+            routed = st.fixed_dictionaries({"q": st.fixed_dictionaries({"key": st.sampled_from(keys).map(bytes.hex),
+                                                                         "ks": st.sampled_from(sorted(kss))}), "wks": st.none()})
+            steps = draw(st.lists(st.one_of(routed, routed, routed, qstep, ev), min_size=1, max_size=6))
             order = draw(st.permutations(list(range(h))))
             return {"ring": {"partitioner": "murmur3", "hosts": hosts, "keyspaces": kss}, "child": child,
                     "shuffle": draw(st.booleans()), "shuffle_seed": draw(st.integers(0, 7)), "randint": draw(st.integers(0, 7)),
